@@ -678,6 +678,16 @@ func runWMA(c wmaCase) wmaCase {
 	fn := func() error {
 		i := calls
 		calls++
+		if i == 0 && c.AsyncNs > 0 {
+			// the concurrent stop is timed from the first call of fn: launched
+			// before WithMaxAttempts it could fire before the loop even starts
+			// on a loaded machine (no call, legitimately).  The closer is owned
+			// by fn's goroutine; asynchronous stops use the context.
+			go func() {
+				time.Sleep(time.Duration(c.AsyncNs))
+				cancel()
+			}()
+		}
 		if i == c.StopAt {
 			stop(c.Stopper)
 		}
@@ -693,12 +703,6 @@ func runWMA(c wmaCase) wmaCase {
 			return nil
 		}
 		return errors.New("boom")
-	}
-	if c.AsyncNs > 0 {
-		go func() {
-			time.Sleep(time.Duration(c.AsyncNs))
-			cancel() // the closer is owned by fn's goroutine; asynchronous stops use the context
-		}()
 	}
 	type result struct{ err error }
 	done := make(chan result, 1)
@@ -832,6 +836,64 @@ func main() {
 		}
 	}
 
+	// gentle multipliers far down the schedule: positions well beyond 64
+	// (up to a few hundred, and two in the thousands) with a MaxBackoff the
+	// exponential has not reached yet, so that the band still moves with the
+	// position.  Dyadic multipliers close to 1 keep the exact power small
+	// (17^300 has 1,226 bits); the decimal ones (1.01, 1.05, 1.1) have 53-bit
+	// mantissas, their exact powers tens of thousands of bits: affordable
+	// because Corr/C17.v evaluates a sample without division (fma, near_trunc).
+	type deepSet struct {
+		o    optsJ
+		ks   []int
+		nsmp int
+	}
+	gentle := []deepSet{
+		{optsJ{Init: 1000, Max: 100000000000, Mult: 1.0625, RF: 0.25}, []int{66, 130, 301}, 25},
+		{optsJ{Init: 1000, Max: 100000000000, Mult: 1.125, RF: 0.125}, []int{65, 100, 157}, 25},
+		{optsJ{Init: 1000000, Max: 100000000000, Mult: 1.03125, RF: 0.5}, []int{70, 200, 375}, 25},
+		{optsJ{Init: 1, Max: 100000000000, Mult: 1.25, RF: 0}, []int{64, 90, 114}, 25},
+		{optsJ{Init: 1, Max: 100000000000, Mult: 1.5, RF: 0.25}, []int{62, 66}, 25},
+		{optsJ{Init: 1000000, Max: 10000000000, Mult: 1.05, RF: 0}, []int{67, 120, 180}, 25},
+		{optsJ{Init: 1000, Max: 100000000000, Mult: 1.1, RF: 0.25}, []int{80, 150}, 25},
+		{optsJ{Init: 1000000, Max: 100000000000, Mult: 1.01, RF: 0.5}, []int{150, 400}, 25},
+		{optsJ{Init: 1000, Max: 10000000000, Mult: 1.125, RF: 0.25}, []int{2000}, 10}, // far past the cap
+		{optsJ{Init: 1, Max: 0, Mult: 0, RF: 0}, []int{3000}, 10},                     // defaults: 2^2999 ns, capped at 2 s
+	}
+	if thorough {
+		for i := 0; i < 40; i++ {
+			m := []float64{1.0625, 1.125, 1.03125, 1.015625, 1.25, 1.1875}[rng.Intn(6)]
+			// stay below MaxBackoff: Init * m^k < 10^11
+			init := int64(1 + rng.Intn(1000000))
+			kmax := int(math.Log(1e11/float64(init)) / math.Log(m))
+			for kmax < 70 && init > 1 {
+				init = init/10 + 1
+				if init == 2 {
+					init = 1
+				}
+				kmax = int(math.Log(1e11/float64(init)) / math.Log(m))
+			}
+			if kmax > 400 {
+				kmax = 400
+			}
+			ds := deepSet{optsJ{Init: init, Max: 100000000000, Mult: m, RF: rfs[1+rng.Intn(4)]}, nil, 25}
+			for j := 0; j < 3; j++ {
+				ds.ks = append(ds.ks, 60+rng.Intn(kmax-59))
+			}
+			gentle = append(gentle, ds)
+		}
+		for i := 0; i < 6; i++ {
+			m := []float64{1.01, 1.05, 1.1}[rng.Intn(3)]
+			gentle = append(gentle, deepSet{optsJ{Init: 1000000, Max: 100000000000, Mult: m, RF: 0.25}, []int{64 + rng.Intn(100)}, 25})
+		}
+	}
+	for _, ds := range gentle {
+		for _, k := range ds.ks {
+			ris = append(ris, runRI(ds.o, k, false, ds.nsmp, rng.Int63()))
+		}
+	}
+	nsets += len(gentle)
+
 	// loops
 	nloops := 160
 	if thorough {
@@ -868,6 +930,33 @@ func main() {
 	}
 	for i := 0; i < nw; i++ {
 		wmas = append(wmas, genWMA(rng))
+	}
+
+	// a long unbounded loop with a gentle multiplier: more than 64 retries
+	// without Reset, each timed against the lower edge of its own band
+	ngentle := 2
+	if thorough {
+		ngentle = 10
+	}
+	for i := 0; i < ngentle; i++ {
+		o := optsJ{Init: 1000, Max: 10000000000, Mult: 1.0625, RF: []float64{0.125, 0.25}[rng.Intn(2)]}
+		n := 110 + rng.Intn(15)
+		if i%2 == 1 {
+			o.Mult = 1.125
+			n = 78 + rng.Intn(8)
+		}
+		c := loopCase{Opts: o, Class: "gentle"}
+		lr := newLoopRunner(o, false, false, rng.Int63n(1<<40))
+		for j := 0; j < n; j++ {
+			op := loopOp{Op: "next"}
+			ok := lr.next(&op)
+			c.Ops = append(c.Ops, op)
+			if !ok {
+				break
+			}
+		}
+		lr.cancel()
+		loops = append(loops, c)
 	}
 
 	// loops with zero / negative back-offs told to stop (see genStopLoop)
